@@ -43,7 +43,7 @@ def seeded_table():
         if not os.path.exists(mp):
             continue
         m = json.load(open(mp))
-        rnd = {"": 1, "b": 2, "c": 3, "d": 4}[name[3:]]
+        rnd = {"": 1, "b": 2, "c": 3, "d": 4, "e": 5}[name[3:]]
         st = stats.setdefault(rnd, [0, 0])
         st[0 if m.get("first_result", "caught") == "caught" else 1] += 1
         rows.append("| `seeded/%s` | %s Needs: %s | %s | %s | %s |" % (name, esc(m.get("summary"))[:210], esc(m.get("needs_to_manifest"))[:150], esc(m.get("first_result", "caught")),
